@@ -11,7 +11,8 @@
 EXTENDS Naturals, Sequences, FiniteSets, TLC
 
 \* ---- records: id is unique and is the value of field n ----
-FieldsOf(d) == IF d = "A" THEN <<"s", "n", "t1", "t2">> ELSE <<"n", "other">>
+\* A and A2 are two descriptors with the SAME type name and different fields
+FieldsOf(d) == CASE d = "A" -> <<"s", "n", "t1", "t2">> [] d = "A2" -> <<"n", "s", "extra">> [] d = "B" -> <<"n", "other">>
 DtFields == {"t1", "t2"}
 SVal(id) == IF id % 2 = 1 THEN "a" ELSE "b"          \* value of A.s
 OVal(id) == IF id % 3 = 0 THEN "y" ELSE "x"          \* value of B.other
@@ -21,7 +22,7 @@ Sels == {"none", "n_gt_2", "other_y", "s_b", "n_ge_other", "other_ge_x", "not_ot
 Match(sel, r) == CASE sel = "none" -> TRUE
                    [] sel = "n_gt_2" -> r.id > 2
                    [] sel = "other_y" -> r.d = "B" /\ OVal(r.id) = "y"
-                   [] sel = "s_b" -> r.d = "A" /\ SVal(r.id) = "b"
+                   [] sel = "s_b" -> r.d \in {"A", "A2"} /\ SVal(r.id) = "b"
                    [] sel = "n_ge_other" -> r.id >= 2 /\ r.d = "B" /\ OVal(r.id) = "y"
                    [] sel = "other_ge_x" -> r.d = "B"                                       \* r.other >= 'x' : "x" and "y" both qualify
                    [] sel = "not_other_y" -> ~(r.d = "B" /\ OVal(r.id) = "y")             \* not (r.other == 'y')
